@@ -192,10 +192,16 @@ fn write_chunk(input: &[u8], input_used: &mut usize, w: &mut Writer, max_chunk: 
     // TODO(martin): Redo this to  try and calculate a perfect fit of the
     // input into the output.
 
-    // 5 is the smallest possible overhead
-    let available = w.available().saturating_sub(5);
+    // The largest chunk that fits the output together with its overhead: the
+    // length in hex, \r\n, and the \r\n after the chunk. 5 is the smallest
+    // possible overhead.
+    let available = w.available();
+    let mut fit = available.saturating_sub(5);
+    while fit > 0 && hex_len(fit) + 4 + fit > available {
+        fit -= 1;
+    }
 
-    let to_write = input.len().min(max_chunk).min(available);
+    let to_write = input.len().min(max_chunk).min(fit);
 
     // A zero sized chunk would end the body.
     if to_write == 0 {
@@ -219,6 +225,17 @@ fn write_chunk(input: &[u8], input_used: &mut usize, w: &mut Writer, max_chunk: 
 
     // write another chunk?
     success && input.len() > to_write
+}
+
+// Number of hex digits needed to write n.
+fn hex_len(n: usize) -> usize {
+    let mut len = 1;
+    let mut n = n >> 4;
+    while n > 0 {
+        len += 1;
+        n >>= 4;
+    }
+    len
 }
 
 #[derive(Clone, Copy, PartialEq, Eq)]
